@@ -58,9 +58,10 @@ def budget(tier):
 
 
 def strategy(tier):
-    loc = st.sampled_from(["rel", "sub", "abs", "path", "sym"])
+    loc = st.sampled_from(["rel", "sub", "abs", "path", "sym", "home"])
     ki = st.integers(0, 7)
     op = st.one_of(st.tuples(st.just("add"), ki), st.tuples(st.just("add"), ki), st.tuples(st.just("add"), ki),
+                   st.tuples(st.just("add"), ki, st.just("alt")),
                    st.tuples(st.just("reopen"), loc, st.booleans()),
                    st.tuples(st.just("export"), st.sampled_from(["rel", "abs", "path"]), st.booleans()),
                    st.tuples(st.just("export_self"), loc, st.booleans()),
@@ -128,6 +129,11 @@ class World:
 
     def arg(self, style, elsewhere):
         """(cwd to switch to, argument to hand to the library) for the backing file"""
+        if style == "home":
+            # "~/..." : the user's home directory (HOME points at this history's root for the duration of the case)
+            os.environ["HOME"] = self.root
+            cwd = os.path.join(self.root, "elsewhere") if elsewhere else self.root
+            return cwd, os.path.join("~", os.path.relpath(self.fileabs, self.root))
         if style == "sym" and getattr(self, "sym", False):
             cwd = os.path.join(self.root, "elsewhere") if elsewhere else self.root
             return cwd, (os.path.join("..", "link", "..", "f.blm") if elsewhere else os.path.join("link", "..", "f.blm"))
@@ -200,9 +206,18 @@ def replay(case, root, ctx=None, kill_at=None, collect=None):
         completed = ref.elements_added
         if kind == "add":
             k = pool[op[1] % len(pool)]
-            ref.add(k)
-            after = bytes(bytearray(ref.bloom[: ref.bloom_length]))
-            fn, args, inflight = o.add, (k,), True
+            if len(op) > 2:
+                # the precomputed-hash entry point with a list computed for a LARGER depth (hash once, feed several filters): only the
+                # first number_hashes entries select bits - in the file exactly as in the in-memory reference
+                hs = ref.hashes(k, ref.number_hashes + 2)
+                ref.add_alt(list(hs))
+                after = bytes(bytearray(ref.bloom[: ref.bloom_length]))
+                fn, args, inflight = o.add_alt, (list(hs),), True
+                feats.add("add_alt_longer_list")
+            else:
+                ref.add(k)
+                after = bytes(bytearray(ref.bloom[: ref.bloom_length]))
+                fn, args, inflight = o.add, (k,), True
         elif kind == "reopen":
             after = before
             fn, args, inflight = o.close, (), False
@@ -218,7 +233,9 @@ def replay(case, root, ctx=None, kill_at=None, collect=None):
             # directory, through a symlink): a no-op or a refusal (shutil.SameFileError) - either way the file stays the live
             # backing file, which the snapshots of this and of every later operation verify
             after = before
-            tcwd, targ = W.arg(op[1], op[2])
+            # (the "~/" spelling is understood where the library resolves paths - constructors and loaders; an export TARGET is
+            # taken literally by the on-disk filter, so it is not used here)
+            tcwd, targ = W.arg(op[1] if op[1] != "home" else "abs", op[2])
             os.chdir(tcwd)
 
             def fn(t=targ, oo=o):
@@ -462,6 +479,17 @@ def _readonly_variant(case, ctx, root):
 
 
 def run_case(case, ctx):
+    home = os.environ.get("HOME")
+    try:
+        _run_case(case, ctx)
+    finally:
+        if home is None:
+            os.environ.pop("HOME", None)
+        else:
+            os.environ["HOME"] = home
+
+
+def _run_case(case, ctx):
     root = ctx.tmpdir()
     collect = []
     thorough = ctx.tier == "thorough"
